@@ -1,0 +1,19 @@
+//go:build verif
+// +build verif
+
+package pegnet
+
+// Contracts for the verification machinery in /verif (govc). Comment-only file:
+// it adds no executable code and is compiled only with the build tag `verif`.
+
+//@ props C13 C17 C08
+//@
+//@ func IsRejectedTx
+//@   ensures @nil err == nil ==> result0 == 1 && result1 == nil
+//@   ensures @insufficient err == InsufficientBalanceErr ==> result0 == 0 - 1 && result1 == nil
+//@   ensures @pfct err == PFCTOneWayError ==> result0 == 0 - 3 && result1 == nil
+//@   ensures @zero_rates err == ZeroRatesError ==> result0 == 0 - 4 && result1 == nil
+//@   ensures @psmall err == PSMALLOneWayError ==> result0 == 0 - 5 && result1 == nil
+//@   ensures @other err != nil && err != InsufficientBalanceErr && err != PFCTOneWayError && err != ZeroRatesError && err != PSMALLOneWayError ==> result0 == 0 && result1 == err
+//@   ensures @codes result0 == InsufficientBalanceErrInt || result0 == PFCTOneWayErrorInt || result0 == ZeroRatesErrorInt || result0 == PSMALLOneWayErrorInt || result0 == 0 || result0 == 1
+//@   modifies nothing
